@@ -296,6 +296,18 @@ func genC05(g *G, n int, out io.Writer) {
 	for k, l := range lengths {
 		enc.Encode(deepChainCase(g, 100000+k, l))
 	}
+	{
+		// the witness of Acv.C05.quoted_values_order_sensitive (known finding KF-C05-1), replayed on the real code in every run:
+		// one node, two values of one property, listed in both orders; the message quotes the property
+		gr := Graph{{Id: nodeId(1), Types: []string{NS + "T"}, Props: []Prop{{NS + "p1", []Val{VS("a"), VS("b")}}}}}
+		c := C05Case{Op: "c05", Id: 200000, Graph: gr}
+		c.Docs = append(c.Docs, C05Doc{Text: gr.RenderFlat(), Form: "flat-canonical", Fragment: true},
+			C05Doc{Text: `[{"@id":"` + nodeId(1) + `","@type":["` + NS + `T"],"` + NS + `p1":["b","a"]}]`, Form: "array-values-reversed", Fragment: true})
+		prof := ProfileSpec{Name: "c05_witness", Atoms: []Atom{{Kind: "minCount", Path: PP("zz", false), Arg: i64p(1)}},
+			Validations: []Validation{{Name: "v", Class: NS + "T", Rule: Rule{Atom: ip(0)}, Message: "values {{ex.p1}}"}}}
+		c.Profiles = []string{prof.Render()}
+		enc.Encode(c)
+	}
 	savedPool := propPool
 	defer func() { propPool = savedPool }()
 	for i := 0; i < n; i++ {
